@@ -123,7 +123,7 @@ class Debugger:
         """
         original = self.op()
         end = self.vm.pc
-        while end < len(self.program.code) and self.op(end) == original:
+        while end < len(self.program.code) and self.op(end) is original:
             end += 1
 
         return self.program.code[self.vm.pc : end]
